@@ -123,21 +123,28 @@ class Report(object):
         if violations:
             vdir = os.path.join(EVIDENCE_DIR, 'violations')
             os.makedirs(vdir, exist_ok=True)
-            for f in violations:
+            for n, f in enumerate(violations):
                 h = hashlib.sha1(repr(f.key()).encode()).hexdigest()[:10]
                 p = os.path.join(vdir, '%s_%s.json' % (self.prop, h))
                 with open(p, 'w') as fh:
                     json.dump(f.as_dict(), fh, indent=1)
                 paths.append(p)
-                print('  rule=%s construct=%s' % (f.rule, f.construct))
-                print('    at %s' % (f.where,))
-                if f.detail:
-                    print('    %s' % (f.detail,))
+                if n < 12:
+                    print('  rule=%s construct=%s' % (f.rule, f.construct))
+                    print('    at %s' % (f.where,))
+                    if f.detail:
+                        print('    %s' % (f.detail[:400],))
+                elif n == 12:
+                    print('  ... %d more (see evidence/violations/)' % (len(violations) - 12))
                 print('VIOLATION property=%s replay=%s' % (self.prop, p))
             if code == 0:
                 code = 1
         if write:
             self.write_evidence(wall, len(violations), knowns, selftest)
+        if selftest is not None:
+            print('self-test: %d variants (%d breaking, %d neutral): %d behaved as required, %d failed' % (
+                selftest['variants'], selftest['breaking'], selftest['neutral'],
+                len(selftest['passed']), len(selftest['failed'])))
         print('%s %s: %d obligations, %d discharged, %d violations, %d known findings, %.2fs%s' % (
             self.prop, self.tier, self.obligations, self.discharged,
             len(violations), len(knowns), wall,
